@@ -43,9 +43,11 @@ SUPPORT += [
     (F('wd6', *([C(i) for i in range(1, 5)] + [C(2), A('c')])), None),
 ]
 FACTS = [(F('d', C(1)), True), (F('d', C(2)), True),
-         (F('r', C(0), A('z')), True)]      # r/2 has compiled clauses AND a dynamic fact (facts come first)
+         (F('r', C(0), A('z')), True),      # r/2 has compiled clauses AND a dynamic fact (facts come first)
+         # predicates named like operators / module qualification: goals like any others
+         (F(':', A('colour'), C(1)), True), (F(':', A('colour'), C(2)), True), (F("-", C(1)), True)]
 GOALS = [A('n0'), A('n1'), A('n2'), F('z1', X), F('o', X), F('m', X), F('d', X), F('u', X), F('r', X, Y), F('r', C(2), Y),
-         F('m', C(2)), F('w', X, Y)]
+         F('m', C(2)), F('w', X, Y), F(':', A('colour'), X), F('-', X)]
 TEMPLATES = [X, F('f', X, Y), A('a'), L([X], Y), Y, L([X, Y])]
 
 
